@@ -167,7 +167,8 @@ class PruneTwigs(_Pruner):
 class PruneStrahler(_Pruner):
     @staticmethod
     def gen(rng, x):
-        return dict(to_prune=[1, [1, 2], -1, range(1, 3), 2][int(rng.integers(5))])
+        # contiguous from the tips, from the top, and NON-contiguous selections (kept nodes end up between removed ones)
+        return dict(to_prune=[1, [1, 2], -1, range(1, 3), 2, [1, 3], [3, 1], [2, 4], [1, 2, 4], slice(1, None), 3][int(rng.integers(11))])
 
     @staticmethod
     def apply(x, p, inplace):
